@@ -117,7 +117,10 @@ func genCase(t *rapid.T) Case {
 }
 
 func isCleanCase(c Case) bool {
-	for _, s := range c.Segs {
+	for i, s := range c.Segs {
+		if s == "" && i == len(c.Segs)-1 && i > 0 {
+			continue // a trailing slash: part of a clean path
+		}
 		if s == "" || s == "." || s == ".." {
 			return false
 		}
@@ -127,7 +130,7 @@ func isCleanCase(c Case) bool {
 				return false
 			}
 		}
-		if strings.Trim(s, ".") == "" {
+		if s != "" && strings.Trim(s, ".") == "" {
 			return false
 		}
 	}
@@ -252,6 +255,9 @@ func runCase(c Case) []ev.Violation {
 		want := rem
 		if c.Preserve && nestedBase {
 			want = path.Join(c.Base, rem)
+			if strings.HasSuffix(rem, "/") && dec == want+"/" {
+				want += "/" // joined under a base path, a trailing slash may be kept or dropped
+			}
 		}
 		if dec != want {
 			bad(fmt.Sprintf("clean-path-wrong/preserve=%v", c.Preserve && nestedBase), "%s: upstream path %q, want %q", desc, dec, want)
